@@ -22,6 +22,12 @@ pub enum VerifEvent {
     UndoUntil(u32),
     /// The last assignment was undone.
     UndoLast,
+    /// The encoder was asked to encode these solvables (`u32::MAX` is the
+    /// root).
+    Encode(Vec<u32>),
+    /// A soft requirement was registered with the other candidates of its
+    /// package right before it was decided.
+    SoftRegister(u32),
 }
 
 /// The origin of a variable.
